@@ -1,4 +1,4 @@
-// C17 harness: deterministic parked schedule for finding F41 — Scanner.sync compares the worker's *live* offset with
+// C17 harness: deterministic parked schedule for finding F17b — Scanner.sync compares the worker's *live* offset with
 // a file size that scanPaths read *earlier*. If the file grows and the new lines are shipped and confirmed between
 // the two reads, mergeDescs sees offset > size, takes the scanned descriptor (offset 0), the old worker is told to
 // stop at EOF and a new worker sends the whole file again — without any stop, crash or rotation.
@@ -142,7 +142,7 @@ func runStale41(in stale41Input, sec *vh.Section) {
 	res.Dist(sec, fmt.Sprintf("park=%v", in.Park))
 	if len(resent) == 0 {
 		if in.Park {
-			res.Note("stale41: parked schedule reached but nothing was re-sent — F41 does not reproduce")
+			res.Note("stale41: parked schedule reached but nothing was re-sent — F17b does not reproduce")
 		}
 		return
 	}
@@ -157,7 +157,7 @@ func runStale41(in stale41Input, sec *vh.Section) {
 	}
 	f41 := ""
 	if in.Park && eq && bytes.HasPrefix(W, resent) {
-		f41 = "F41"
+		f41 = "F17b"
 	}
 	res.SpecFail(vh.SpecFailure{Section: "stale41", Kind: "file-resent-from-beginning", Input: in, Finding: f41, ImplEqModel: eq, Model: model,
 		Impl: fmt.Sprintf("confirmed %d bytes = the file, then %d more bytes starting again with %s", before, len(resent), short(resent)),
@@ -177,6 +177,6 @@ func replayStale41(input json.RawMessage) {
 	if err := json.Unmarshal(input, &in); err != nil {
 		res.Fatal(args.Out, "replay stale41: %v", err)
 	}
-	sec := res.Section("stale41", "system-correspondence", "deterministic parked schedule for F41 (stale size in Scanner.sync)")
+	sec := res.Section("stale41", "system-correspondence", "deterministic parked schedule for F17b (stale size in Scanner.sync)")
 	runStale41(in, sec)
 }
